@@ -56,6 +56,12 @@ CLAIMED = {
     'C20': ('exploration', 'self-reference monitor: REPL fed one physical line at a time (recording UI, captured stdout/stderr, globals snapshot per line; mode repl) vs the same statements compiled whole in single mode; generator-known statement boundaries for the prompt rule; CPython displayhook for echo/_',
             'Generated sessions of simple/compound/multi-line/erroneous statements; each statement must run exactly once, no later than its terminating blank line; prompts, echo, _ and error recovery are judged.',
             'Terminal integration (liner) and completion not covered.', '6/C20'),
+    'C02': ('exploration', 'reference-model monitor: path trace (stdout markers), escaping exception type and (function, line) traceback vs CPython over enumerated statement nestings x exit actions at every point',
+            'All chains of compound statements to the depth bound, with data-dependent actions (raise/return/break/continue/nested raising calls/iterator and context-manager faults) at every marked point; the same code object is driven down several paths.',
+            'One statement per physical line so that 3.4 and 3.11 line attribution coincide; sys.exc_info/__context__/generator throw not covered.', '6/C02'),
+    'C05': ('exploration', 'reference-model monitor: event traces of producers/consumers and per-operation results of next/send interleavings vs CPython',
+            'Cross product of 37 consumers x 10 producer kinds x fault kind/position, and all next/send sequences of bounded length over pairs/triples of live generators (try/finally, loops, yield from with values).',
+            'Generator bodies never leak StopIteration (PEP 479); throw/close not covered.', '6/C05'),
 }
 
 PENDING_REASON = 'check not built yet in this round (the design in DESIGN.md applies; nothing is claimed until the monitor exists and is silent on the unchanged tree)'
